@@ -1,6 +1,6 @@
 (** C18 - Concurrent requests and background tasks never deadlock or lose work.
     Only statements; proofs in conc/LocksProofs.v, conc/ConcCheck.v. *)
-From KV Require Import base.Tac conc.Locks conc.LocksProofs conc.ConcCheck.
+From KV Require Import base.Tac conc.Locks conc.LocksProofs conc.Serial conc.SerialProofs conc.ConcCheck.
 Open Scope N_scope.
 
 (** The rank discipline is kept by every step. *)
@@ -28,8 +28,18 @@ Proof. exact step_decreases_work. Qed.
 Theorem C18_ranked_check_sound : forall rk p h, ranked_b rk h p = true -> ranked rk h p.
 Proof. exact ranked_b_sound. Qed.
 
+(** "Each is answered as in some one-at-a-time execution": on every trace in which entities (a CA, a store, the
+    files of the repository under the publication server's update lock) are only mutated by the thread holding
+    their lock, the mutations of an entity are the concatenation of single-thread critical sections in lock order.
+    The check evaluates [well_locked] on the trace recorded from the real threads. *)
+Theorem C18_per_entity_serial : forall tr e,
+  well_locked [] tr = true ->
+  Forall single_thread (sections e None tr) /\ concat (map snd (sections e None tr)) = writes e tr.
+Proof. exact per_entity_serial. Qed.
+
 Print Assumptions C18_reachable_ranked.
 Print Assumptions C18_ranked_no_deadlock.
 Print Assumptions C18_ranked_progress.
 Print Assumptions C18_step_decreases_work.
 Print Assumptions C18_ranked_check_sound.
+Print Assumptions C18_per_entity_serial.
